@@ -74,6 +74,21 @@ class LockFlow(PyFlow):
                           f"`{norm(e)[:70]}` propagates while this side is "
                           f"not marked as locked: the partner's handler will "
                           f"propagate back (ping-pong / unbounded recursion)")
+            # a lock table kept in a local stands for its definition
+            import re as _re
+            ldefs = {}
+            for n_ in ast.walk(self.func):
+                if isinstance(n_, ast.Assign) and len(n_.targets) == 1 \
+                        and isinstance(n_.targets[0], ast.Name):
+                    ldefs.setdefault(n_.targets[0].id, []).append(
+                        norm(n_.value))
+            def _expand(t):
+                for nm, ds in ldefs.items():
+                    if len(ds) == 1 and "_get_sync_trait_info()" in ds[0]:
+                        t = _re.sub(rf"\b{_re.escape(nm)}\b", ds[0], t)
+                return t
+            facts = frozenset((f[0], _expand(f[1])) if f[0] in ("T", "F")
+                              else f for f in facts)
             guard = [f for f in facts if f[0] == "F"
                      and " in " in f[1] and "_get_sync_trait_info()['']" in f[1]]
             guard += [f for f in facts if f[0] == "T" and " not in " in f[1]
@@ -273,14 +288,39 @@ def pairing(ctx, res):
         res.oblige(a in addset, f"sync_trait:unpaired-remove:{a[0]}",
                    mod.loc(n), f"removal of `{a}` has no matching add")
     # bookkeeping keys agree
-    del_keys = [norm(d.targets[0]) for d in ast.walk(rm_if[0])
-                if isinstance(d, ast.Delete)]
-    keydefs = [norm(n.value) for n in ast.walk(fn) if isinstance(n, ast.Assign)
-               and len(n.targets) == 1 and norm(n.targets[0]) == "key"]
-    res.oblige(len(set(keydefs)) == 1 and "dic[key]" in del_keys,
+    ldefs = {}
+    for n in ast.walk(fn):
+        if isinstance(n, ast.Assign) and len(n.targets) == 1 \
+                and isinstance(n.targets[0], ast.Name):
+            ldefs.setdefault(n.targets[0].id, set()).add(norm(n.value))
+
+    def keytexts(e):
+        if isinstance(e, ast.Name) and e.id in ldefs:
+            return ldefs[e.id]
+        return {norm(e)}
+    # link removed: `del <table>[K]` inside the remove branch (not the
+    # per-name table of the whole info dict, which is keyed by trait name)
+    rm_keys = set()
+    for d in ast.walk(rm_if[0]):
+        if isinstance(d, ast.Delete) and isinstance(d.targets[0],
+                                                    ast.Subscript):
+            kt = keytexts(d.targets[0].slice)
+            if any("id(" in k for k in kt):
+                rm_keys |= kt
+    # link added: `<table>[K] = (weakref.ref(...), alias)` outside it
+    add_keys = set()
+    for n in ast.walk(fn):
+        if isinstance(n, ast.Assign) and isinstance(n.targets[0],
+                                                    ast.Subscript) \
+                and not any(n is x for x in ast.walk(rm_if[0])):
+            kt = keytexts(n.targets[0].slice)
+            if any("id(" in k for k in kt):
+                add_keys |= kt
+    res.oblige(len(rm_keys) == 1 and rm_keys == add_keys,
                "sync_trait:key", mod.loc(fn),
                f"the add and remove branches identify the link with "
-               f"different keys ({keydefs})")
+               f"different keys (add {sorted(add_keys)}, remove "
+               f"{sorted(rm_keys)})")
     # mutual recursion stops: the nested call passes mutual=False
     rec = [c for c in ast.walk(fn) if isinstance(c, ast.Call)
            and isinstance(c.func, ast.Attribute)
